@@ -841,7 +841,7 @@ def generate(rng, tier):
         else: cs.append(Case(f"cross {flist(a)} {flist(b)}", ("cross",)))
     cs.append(Case(f"cross {flist([1.0, 0.0])} {flist([1.0, 0.0, 0.0])}", ("cross-guard",)))
     # ---- histories of calls in one pristine process
-    cs += _seq_cases(rng, 3000 if big else 150)
+    cs += _seq_cases(rng, 1500 if big else 150)
     return cs
 
 
